@@ -1037,6 +1037,27 @@ func c05RoundTrips(run *mon.Run, r *rand.Rand, cv ref.Conv) {
 	rem, _ := crypto.RemoveBLSPublicKeys(aggPk, []crypto.PublicKey{b.PublicKey()})
 	objs = append(objs, obj{"removed", nil, rem, BLS})
 	objs = append(objs, obj{"identity", nil, crypto.IdentityBLSPublicKey(), BLS})
+	// identity keys from every other producer (their internal coordinates differ)
+	if k, e := crypto.RemoveBLSPublicKeys(a.PublicKey(), []crypto.PublicKey{a.PublicKey()}); e == nil {
+		objs = append(objs, obj{"identity-removed-from-itself", nil, k, BLS})
+	}
+	if k, e := crypto.RemoveBLSPublicKeys(aggPk, []crypto.PublicKey{a.PublicKey(), b.PublicKey()}); e == nil {
+		objs = append(objs, obj{"identity-all-removed", nil, k, BLS})
+	}
+	if k, e := crypto.RemoveBLSPublicKeys(aggPk, []crypto.PublicKey{aggPk}); e == nil {
+		objs = append(objs, obj{"identity-aggregate-removed", nil, k, BLS})
+	}
+	if neg, e := crypto.DecodePrivateKey(BLS, ref.ScalarBytes(ref.Fr.Neg(skScalar(a)))); e == nil {
+		if k, e := crypto.AggregateBLSPublicKeys([]crypto.PublicKey{a.PublicKey(), neg.PublicKey()}); e == nil {
+			objs = append(objs, obj{"identity-opposite-keys", nil, k, BLS})
+		}
+		if z, e := crypto.AggregateBLSPrivateKeys([]crypto.PrivateKey{a, neg}); e == nil {
+			objs = append(objs, obj{"identity-zero-private-key", nil, z.PublicKey(), BLS})
+		}
+	}
+	if infK, e := crypto.DecodePublicKey(BLS, append([]byte{0xC0}, make([]byte, 95)...)); e == nil {
+		objs = append(objs, obj{"identity-decoded", nil, infK, BLS})
+	}
 	sks, pks, gpk, err := crypto.BLSThresholdKeyGen(5, 2, mon.RandBytes(r, 32))
 	if err == nil {
 		for i := range sks {
